@@ -192,26 +192,33 @@ def judge(ctx, pre, ref, out, tol, desc, cls, wit, nontrivial=None):
         elif np.any(_far(g, ref.p, tol.p_abs, tol.p_rel)):
             bad("renormalisation-wrong", got=g, want=ref.p, via="prob()")
     if "modes" in out:
-        ms = [np.asarray(m).astype(np.int64).ravel() for m in out["modes"]]
-        ctx.monitor("keyless_actions_checked", len(ms))
-        if any(m.shape != ms[0].shape or not np.array_equal(m, ms[0]) for m in ms[1:]):
-            bad("keyless-not-deterministic", got=[m.tolist() for m in ms])
-        m = ms[0]
-        i = int(ref.index(m)[0]) if m.size == nc else -1
-        if i < 0:
-            bad("mode-out-of-range", got=m)
-        elif not ref.allowed[i]:
-            bad("mode-masked", got=m, want_logp=ref.logp)
-        else:
-            unique = True
-            for c in range(nc):
-                lp = ref.comps[c][1]
-                if not lp[m[c]] >= lp.max() - tol.tie:
-                    bad("mode-not-argmax", got=m, component=c, want=int(np.argmax(lp)), ref_logp=lp)
-                    break
-                if np.sum(lp >= lp.max() - tol.tie) > 1:
-                    unique = False
-            ctx.monitor("mode_unique_argmax_decided" if unique else "mode_tie_tolerated")
+        # out["modes"]: key-less actions from the primary program; out["modes_x"]: {execution mode: [repeated calls]}
+        groups = {"primary": out["modes"], **out.get("modes_x", {})}
+        groups = {g: [np.asarray(m).astype(np.int64).ravel() for m in ms] for g, ms in groups.items()}
+        unique = True
+        for g, ms in groups.items():
+            ctx.monitor("keyless_actions_checked", len(ms))
+            if any(m.shape != ms[0].shape or not np.array_equal(m, ms[0]) for m in ms[1:]):
+                bad("keyless-not-deterministic", got=[m.tolist() for m in ms], execution=g)
+            m = ms[0]
+            i = int(ref.index(m)[0]) if m.size == nc else -1
+            if i < 0:
+                bad("mode-out-of-range", got=m, execution=g)
+            elif not ref.allowed[i]:
+                bad("mode-masked", got=m, want_logp=ref.logp, execution=g)
+            else:
+                for c in range(nc):
+                    lp = ref.comps[c][1]
+                    if not lp[m[c]] >= lp.max() - tol.tie:
+                        bad("mode-not-argmax", got=m, component=c, want=int(np.argmax(lp)), ref_logp=lp, execution=g)
+                        break
+                    if np.sum(lp >= lp.max() - tol.tie) > 1:
+                        unique = False
+        ctx.monitor("mode_unique_argmax_decided" if unique else "mode_tie_tolerated")
+        firsts = [ms[0] for ms in groups.values()]
+        if unique and any(not np.array_equal(m, firsts[0]) for m in firsts[1:]):
+            # with a unique maximiser eager, jit and vmap executions must agree; near ties they may legitimately differ
+            bad("keyless-differs-between-executions", got={g: ms[0].tolist() for g, ms in groups.items()})
     if "samples" in out:
         s = np.asarray(out["samples"])
         N = s.shape[0]
@@ -285,6 +292,21 @@ def params_to_logits(form, p):
 
 
 # --------------------------------------------------------------------------- distribution units
+def _short(e):
+    return f"{type(e).__name__}: {e}"[:300]
+
+
+def _raise_key(e, default):
+    """Mechanism key for an exception raised by lerax: the non-jittable flat split of MultiCategorical is one
+    mechanism wherever it surfaces."""
+    import traceback
+
+    tb = "".join(traceback.format_exception(type(e), e, e.__traceback__))
+    if "ConcretizationTypeError" in type(e).__name__ + tb and "_split_or_unpack_params" in tb:
+        return "multicategorical-flat-split-raises-under-jit"
+    return default
+
+
 def _np_out(tree):
     import jax
 
@@ -436,9 +458,20 @@ def u_multicategorical(ctx):
                         o += n
                     cases.append((np.concatenate(parts), m, kind))
             kc += 1
-            outs = _np_out(eqx.filter_jit(jax.vmap(make(nvec, form, mform, 512)))(
-                jnp.asarray(np.stack([c[0] for c in cases])), jnp.asarray(np.stack([c[1] for c in cases])),
-                jr.split(ctx.key(kc), len(cases))))
+            args = (jnp.asarray(np.stack([c[0] for c in cases])), jnp.asarray(np.stack([c[1] for c in cases])),
+                    jr.split(ctx.key(kc), len(cases)))
+            mode = "vmap+jit"
+            try:
+                outs = _np_out(eqx.filter_jit(jax.vmap(make(nvec, form, mform, 512)))(*args))
+                ctx.monitor("multicategorical_jit_batches_ok")
+            except Exception as e:
+                # masking (or building) the law raises under jit: a violation of its own; the values are still
+                # judged through vmap without jit so that this defect does not hide others
+                ctx.monitor("multicategorical_jit_batches_raised")
+                ctx.violation(_raise_key(e, "multicategorical-raises-under-jit"),
+                              {"nvec": list(nvec), "form": form, "maskform": mform, "error": _short(e)})
+                mode = "vmap-nojit"
+                outs = _np_out(jax.vmap(make(nvec, form, mform, 512))(*args))
             for i, (p, m, kind) in enumerate(cases):
                 if form == "probs":
                     lg = np.concatenate([params_to_logits("probs", x / f64(x).sum()) for x in split(p, nvec)])
@@ -449,8 +482,8 @@ def u_multicategorical(ctx):
                     ctx.monitor("excluded_no_allowed_mass")
                     continue
                 judge(ctx, "multicategorical", ref, jax.tree.map(lambda x: x[i], outs), Tol(ref.L, ncomp=len(nvec)),
-                      {"nvec": list(nvec), "mask": bits(m), "form": form, "maskform": mform, "mode": "vmap+jit",
-                       "h": digest(p, m)}, f"multicategorical/{form}-{mform}/{kind}", {"params": p})
+                      {"nvec": list(nvec), "mask": bits(m), "form": form, "maskform": mform, "mode": mode,
+                       "h": digest(p, m)}, f"multicategorical/{form}-{mform}/{kind}/{mode}", {"params": p})
             # eager, concrete masks
             ef = make(nvec, form, mform, 32)
             step = max(1, len(cases) // ctx.n(6, 20))
@@ -702,16 +735,24 @@ def ac_leg(ctx, kind, specs, build_policy=None):
             M = jnp.asarray(np.stack([c[1] for c in cases]))
             kc += 1
             keys = jr.split(ctx.key(500_000 + 1000 * si + kc), len(cases))
+            O0 = jnp.asarray(np.stack([cases[i * len(masks)][0] for i in range(n_obs)]))
+            f0 = lambda p, o, k: f(p, o, None, k)  # noqa: E731  (the same with no mask at all, one per observation)
+            jit_ok = True
             try:
                 outs = _np_out(eqx.filter_jit(eqx.filter_vmap(f, in_axes=(None, 0, 0, 0)))(pol, O, M, keys))
-                # the same with no mask at all (one per observation)
-                O0 = jnp.asarray(np.stack([cases[i * len(masks)][0] for i in range(n_obs)]))
-                outs0 = _np_out(eqx.filter_jit(eqx.filter_vmap(lambda p, o, k: f(p, o, None, k), in_axes=(None, 0, 0)))(
-                    pol, O0, keys[:n_obs]))
+                outs0 = _np_out(eqx.filter_jit(eqx.filter_vmap(f0, in_axes=(None, 0, 0)))(pol, O0, keys[:n_obs]))
+                ctx.monitor(f"{pre}_jit_batches_ok")
             except Exception as e:
-                ctx.violation(f"{pre}-call-with-mask-raises", {"nvec": list(nvec), "error": f"{type(e).__name__}: {e}"[:400]})
-                continue
-            jcall = eqx.filter_jit(fcall)
+                jit_ok = False
+                ctx.monitor(f"{pre}_jit_batches_raised")
+                ctx.violation(_raise_key(e, f"{pre}-call-raises-under-jit"), {"nvec": list(nvec), "error": _short(e)})
+                try:  # judge the values without jit so that this defect does not hide others
+                    outs = _np_out(eqx.filter_vmap(f, in_axes=(None, 0, 0, 0))(pol, O, M, keys))
+                    outs0 = _np_out(eqx.filter_vmap(f0, in_axes=(None, 0, 0))(pol, O0, keys[:n_obs]))
+                except Exception as e2:
+                    ctx.violation(f"{pre}-call-with-mask-raises", {"nvec": list(nvec), "error": _short(e2)})
+                    continue
+            jcall = eqx.filter_jit(fcall) if jit_ok else fcall
             estep = max(1, len(cases) // ctx.n(10, 30))
             for i, (o, m) in enumerate(cases):
                 lg = np_ac_params(pol, o, act)
@@ -723,9 +764,9 @@ def ac_leg(ctx, kind, specs, build_policy=None):
                 ent = out.pop("ent")
                 ctx.monitor("entropy_finite" if np.all(np.isfinite(ent)) else "entropy_not_finite_under_mask")
                 if i % estep == 0:  # separate jit call and two eager calls must return the same greedy action
-                    out["modes"] = out["modes"] + [np.asarray(jcall(pol, jnp.asarray(o), jnp.asarray(m))),
-                                                   np.asarray(fcall(pol, jnp.asarray(o), jnp.asarray(m))),
-                                                   np.asarray(fcall(pol, jnp.asarray(o), m))]
+                    out["modes_x"] = {"jit": [np.asarray(jcall(pol, jnp.asarray(o), jnp.asarray(m))) for _ in range(2)],
+                                      "eager": [np.asarray(fcall(pol, jnp.asarray(o), jnp.asarray(m))),
+                                                np.asarray(fcall(pol, jnp.asarray(o), m))]}
                     ctx.monitor("keyless_repeat_eager_jit_compared")
                 tol = Tol(ref.L, fwd=1e-4 * (1 + ref.L), ncomp=len(ref.nvec))
                 if kind == "multibinary":
@@ -795,18 +836,19 @@ EPSILONS = [0.0, 0.1, 0.5, 1.0]
 
 
 def judge_q(ctx, pre, q, mask, eps, out, desc, cls, wit, fwd):
-    """q: reference Q-values (float64), mask: bool array or None."""
+    """q: reference Q-values (float64), mask: bool array or None, fwd: relative error allowed for the float32
+    forward pass that produced the real Q-values."""
     from scipy.stats import binom
 
     n = len(q)
     m = np.ones(n, dtype=bool) if mask is None else np.asarray(mask, dtype=bool)
     ref = ref_cat(q, m)
-    tol = Tol(ref.L, fwd=fwd)
+    tol = Tol(ref.L, fwd=fwd * (1 + ref.L))
     lp = ref.comps[0][1]
     unique = int(np.sum(lp >= lp.max() - tol.tie)) == 1
     greedy = int(np.argmax(lp))
     samples = out.pop("draws")
-    judge(ctx, pre, ref, {"modes": out["modes"]}, tol, desc, cls, wit,
+    judge(ctx, pre, ref, {k: v for k, v in out.items() if k in ("modes", "modes_x")}, tol, desc, cls, wit,
           nontrivial=(ref.restricts or mask is None) and unique)
     s = np.asarray(samples).astype(np.int64).ravel()
     N = len(s)
@@ -886,8 +928,8 @@ def q_leg(ctx, pre, make_policy, ref_q, ns):
                     q = ref_q(pol, o)
                     out = jax.tree.map(lambda x: x[i], outs)
                     if i % estep == 0:  # eager, concrete mask, with and without key
-                        out["modes"] = out["modes"] + [np.asarray(pol(None, jnp.asarray(o), action_mask=jnp.asarray(m))[1]),
-                                                       np.asarray(pol(None, jnp.asarray(o), action_mask=m)[1])]
+                        out["modes_x"] = {"eager": [np.asarray(pol(None, jnp.asarray(o), action_mask=jnp.asarray(m))[1]),
+                                                    np.asarray(pol(None, jnp.asarray(o), action_mask=m)[1])]}
                         ek = np.asarray(pol(None, jnp.asarray(o), action_mask=jnp.asarray(m), key=keys[i])[1])
                         ctx.monitor("q_eager_keyed_calls")
                         if not m[int(ek)]:
@@ -919,12 +961,7 @@ def u_q_mlp(ctx):
     def ref_q(pol, o):
         return np_mlp(pol.q_network, f64(o).ravel(), "relu")
 
-    def make2(env, eps, key, v):
-        pol, _ = make(env, eps, key, v)
-        return pol, 1e-4
-
-    # forward tolerance depends on |q|: use 1e-4 * (1 + L) through Tol(fwd=...) computed in judge_q from a scalar
-    q_leg(ctx, "q-mlp", lambda env, eps, key, v: (make(env, eps, key, v)[0], 2e-4), ref_q,
+    q_leg(ctx, "q-mlp", lambda env, eps, key, v: (make(env, eps, key, v)[0], 1e-4), ref_q,
           [2, 3, 4, 5] + ([] if ctx.quick else [9]))
     ctx.notes["exhaustive_subspaces"] = ["MLPQPolicy/Discrete(n): every non-empty mask for n <= 5 x epsilon in "
                                          f"{EPSILONS} per (policy, observation)"]
@@ -1049,9 +1086,13 @@ def u_continuous(ctx):
                     desc = {"family": family, "d": d, "low": low, "high": high, "variant": variant, "h": digest(o)}
                     ctx.case(desc, nontrivial=True, cls=f"continuous/{family}/d{d}")
                     ctx.monitor("continuous_keyless_checked")
-                    calls = [np.asarray(a0).reshape(-1), np.asarray(a1).reshape(-1)] + [e.reshape(-1) for e in eager]
-                    if any(not np.array_equal(c, calls[0]) for c in calls[1:]):
-                        ctx.violation(f"{family}-keyless-not-deterministic", {**desc, "got": calls})
+                    calls = [np.asarray(a0).reshape(-1), np.asarray(a1).reshape(-1)]
+                    eager = [e.reshape(-1) for e in eager]
+                    # repeated calls of one execution mode are bit-identical; eager vs jit may differ by float32 rounding
+                    if not np.array_equal(calls[0], calls[1]) or (eager and not np.array_equal(eager[0], eager[1])):
+                        ctx.violation(f"{family}-keyless-not-deterministic", {**desc, "got": calls + eager})
+                    if eager and np.any(~(np.abs(f64(eager[0]) - f64(calls[0])) <= gtol)):
+                        ctx.violation(f"{family}-keyless-differs-between-executions", {**desc, "got": calls + eager})
                     if np.any(~(np.abs(f64(calls[0]) - greedy) <= gtol)):
                         ctx.violation(f"{family}-keyless-not-greedy", {**desc, "got": calls[0], "want": greedy, "obs": o})
                     # keyed calls: samples vary, follow the law the policy reports, and the log-prob is that law's
